@@ -6,3 +6,6 @@
 mod compressed;
 
 pub(super) use compressed::*;
+
+#[cfg(ruzstd_verif)]
+pub use compressed::verif;
